@@ -1,3 +1,4 @@
+\* = the thorough-tier job "stream2-I" of harness/internal/v2/tiers.go; "stream2-R" is the same with Senders = {"R"}
 \* Stream-focused exhaustive configuration: rekey interval 3, enough packets
 \* in each direction to cross two rekey boundaries (version/decoy packets
 \* count as uses), ignore flags, up to two channel faults at every position.
@@ -10,12 +11,12 @@ CONSTANTS
   PrefixMatches = {0}
   Sizes = {1}
   IgnoreOpts = {FALSE, TRUE}
-  MaxApp = 5
+  MaxApp = 6
   MaxFlight = 2
   Senders = {"I"}
   MaxFaults = 2
   FaultKinds = {"flip", "trunc", "drop", "dup", "swap"}
-  FaultSeqs = {0,1,2,3,4,5,6,7,8,9,10,11,12}
+  FaultSeqs = {0,1,2,3,4,5,6,7,8,9,10,11,12,13,14,15,16}
   TrackNonces = TRUE
 INIT Init
 NEXT Next
